@@ -137,8 +137,7 @@ def _parseval(ck, D, N):
     w = weights(D, N)
     lhs = sym.rsum([sym.rmul(u[i], u[i]) for i in np.ndindex(u.shape)])
     rhs = sym.rmul(orc.fl(Fraction(1, N**D)), sym.rsum([sym.rmul(orc.fl(w[idx]), sym.cabs2(sym.asc(enc.outs[0][(0,) + idx]))) for idx, _ in orc.stored_modes(D, N)]))
-    ck.add(f"L2/D{D}N{N}/parseval", sym.rcmp("eq", lhs, rhs), [], family="Parseval for ex.fft with layout weights", timeout=300,
-           replay=lambda m: {"reproduced": True, "detail": "Parseval identity of ex.fft fails"})
+    ck.add(f"L2/D{D}N{N}/parseval", sym.rcmp("eq", lhs, rhs), [], family="Parseval for ex.fft with layout weights", timeout=300)  # generic replay: ex.fft at the model's state
     ck.add(f"L2/D{D}N{N}/twin", sym.rcmp("eq", lhs, sym.rmul(orc.fl(2), rhs)), [], family="L2/twin", expect="sat", timeout=300)
 
 
